@@ -273,11 +273,41 @@ PROPS["C10"] = {"rule": UPDATE_RULE, "trusted_base": UPDATE_TB, "assumptions": [
     "that the updated document is tokenized back into tokens with the same texts (hypothesis AllSame of C10_idempotent_partial) and that it parses to the same commands are decided by the direct oracles on the generated cases, not proved",
 ]}
 
+GENERATE_TB = [
+    KERNEL,
+    "the theorem statements in lean/ScrutModel/Props being a faithful reading of the property",
+    CORR,
+    "hand-written model lean/ScrutModel/Model/Generate.lean of generate_expectation_line, looks_like_modifier_or_exit_code, generate_testcase_expression, generate_testcase (Ok / MalformedOutput with unexpected lines only / InvalidExitCode), MarkdownTestCaseGenerator (max_backtick_size) and CramTestCaseGenerator (cram_indented) for one outcome without title; tied to the code by comparing the whole generated document byte for byte on every case",
+    "the component models the theorems compose (Newline, Escaping, EscapedFilter, RulesStr, Grammar, LineParser, Diff, Exec), each tied to the code by the correspondence of its own property (C01-C08, C11)",
+    "parameters: char::is_other() (unicode mode: assumed to be exactly the control characters on ASCII, real value passed per case), the regex crate's \\s and char::is_whitespace taken as the Unicode White_Space table of Model/Grammar.lean (compared per code point under C08), glob/regex rule constructors (arbitrary: no generated line uses them)",
+    "String::from_utf8_lossy only on valid UTF-8 (its use on a command or on a printable line); the Markdown/Cram document parsers reading the generated wrapper back as one test with the same command and these lines: not a Lean theorem, checked on every case by the oracle real generator -> real parser -> real validate",
+    RUSTC,
+]
+GENERATE_RULE = (
+    "outcomes built as src/bin/commands/create.rs builds them, through the real Markdown/Cram generators, compared byte for byte with the model's document; the same text through the real parser and the real TestCase::validate against the output it was generated from (direct oracle = the property itself): "
+    "(1) every output of up to 2 (thorough 3) lines over an 18-line collision alphabet (foo, `foo (glob)`, `foo (?)`, `foo ()`, `[1]`, `$ x`, `> x`, a fence, empty, blanks, control character, backslash, non-ASCII, invalid UTF-8, `# c`, ` (no-eol)` endings) x final line feed x format x escaper x exit code {0,1,255}; "
+    "(2) every line prefix x middle x suffix over 7x8x10 syntax fragments (command leads, brackets, fences x text, control, backslash, invalid UTF-8 x modifiers, ` (no-eol) (escaped)`, white-space flavours), alone or as second line, x final line feed x format x escaper; "
+    "(3) seeded random byte strings with multi-line, non-ASCII and stderr-validated commands; (4) commands (empty -> index panic as a value, blank continuation lines, non-ASCII, `$ `/`> ` inside); "
+    "(5) update: random Markdown documents with perturbed outputs and the greedy witness (oracle only for this property: the rewritten block passes on the output it was updated from). "
+    "non-trivial = output of at least 2 bytes / document with a scrut block; distinct = distinct model op line"
+)
+PROPS["C09"] = {"rule": GENERATE_RULE, "trusted_base": GENERATE_TB, "assumptions": [
+    "the Lean model is tied to the Rust code by differential execution, not by translation",
+    "the output is what TestCase::validate sees (after render_output); exit codes are process exit codes 0..255 for the read-back theorem",
+    "create: no title, configuration = the format's default or output_stream: stderr",
+]}
+
 MANIFEST_TEXT = {
+    "C09": {
+        "text": "CREATE. Machine-checked (Lean 4, every output byte string, both escapers, no guard): for every line of split_at_newline(output), generate_expectation_line does not panic and writes a text that contains no line feed, starts with neither `$ ` nor `> `, is no `[digits]` line -- so add_testcase_body appends it to the expectations of the open test in either parser mode (C09_line_is_expectation) -- and that the expectation grammar parses to an UNQUANTIFIED expectation of kind equal, no-eol or escaped whose rule (EqualRule / EqualNoEolRule / EscapedRule::make + matches) matches exactly that line (C09_line_roundtrip; covers `[1]`, `$ x`, `> x`, `foo (glob)`, `foo ()`, ` (no-eol)` endings incl. the \\x20 rewrite and the \\x24/\\x3e first-character escape, control characters, backslashes, invalid UTF-8, missing final line feed). Composition: all three reachable branches of generate_testcase write command + one such line per output line + `[code]` iff code != 0 (C09_create_shape, C09_create_lines_written, C09_create_outcome); the matcher run with the parsed expectations against the same output reports no difference (C09_create_passes, via C03_own_lines); `[c]` reads back as c for 0..255 and validate then says ok (C09_exit_code_roundtrip, C09_create_verdict); the Markdown fence is longer than any backtick run at a line start (C09_markdown_fence). Key lemma: everything written in front of ` (escaped)` is a sequence of decoder tokens in which a blank is only ever the blank piece and a non-backslash first character is its own piece, so `\\x20` and `\\xHH` rewrites keep the decoded bytes (Lemmas/GeneratePieces.lean). NOT a Lean theorem: that the Markdown/Cram document parser returns the wrapped text as one test with the same command and exactly these lines -- covered by the byte-for-byte correspondence of the whole document plus the end-to-end oracle (real generator -> real parser -> real validate) on every case. UPDATE: oracle only; the full statement is false (C09_update_fails_on_witness, open finding).",
+        "design_ref": "DESIGN.md §6 C09",
+        "note": "Open finding C09:update-retained-quantified-expectations (inherent to the greedy matcher; witness `a* (glob+)`, `zzz`, `*2 (glob)` on a1 a2 b2). Defects repaired by fix: e62618f (Cram trim_end), bc2a143 (syntax collisions, ` (escaped) (no-eol)` order, stderr stream), 9b34612 (found by this model: `$ foo (no-eol)` was written `\\x24 foo (no-eol) (escaped)` and failed on its own output; regression class C09:first-char-escape-drops-no-eol-guard). Unicode-mode theorems assume is_other on ASCII = control characters. An empty shell expression panics in generate_testcase_expression (index 0 of no lines): modelled as a value, not reachable from a non-empty command line. A command ending in a line feed reads back without it (outside the property's quantifier: outputs and exit codes).",
+        "technique": "Lean 4 theorems composing the machine-checked component models (escaper, decoder, grammar, line parser, matcher, verdict) over an executable model of the generators + byte-for-byte differential correspondence of the generated document + end-to-end generate/parse/validate oracle",
+    },
     "C10": {
-        "text": "Machine-checked (Lean 4) for all documents, malformed included, all language lists and all generated texts: without outcomes the document is returned byte for byte (C10_no_outcomes_untouched); update never panics and fails only for a missing or unrenderable outcome (C10_fails_only_for_outcomes); the updated text arises from the lines of the document by the rules of the relation Rewritten: every line outside scrut blocks (prose, front-matter, foreign blocks, unterminated constructs, everything after the last test) is written back as it is, in order, LF-terminated, nothing dropped or truncated, every scrut block replaced by exactly one closed block (C10_outside_preserved; strict form under the guard 'front-matter has a line and is closed': C10_outside_preserved_partial); a rewritten block keeps language, inline configuration (white space after `{` dropped) and the comment lines, a block without code keeps all lines and uses no outcome (C10_blocks_kept); a block rewritten from its own code lines is reproduced line for line (C10_passing_verbatim); a second update that reads back the same texts and gets the same generated texts writes the same document (C10_idempotent_partial). PARTIAL: deviations proved on closed witnesses and reported by the oracle: empty front-matter gains a blank line, unterminated front-matter gains `---` (C10_front_matter_*_fails_on_witness), `{  }` becomes `{}` then disappears and `\\r\\r\\n` loses one CR per update (C10_not_idempotent_*_witness); re-tokenization of the updated document and 'same commands' are decided by oracles only. Tie to code: exhaustive documents up to 4 lines over a 12-line branch alphabet x outcome lists, random malformed documents with all line-ending styles, generated well-formed documents with real parse/validate; the model reproduces the whole updated document byte for byte.",
+        "text": "Machine-checked (Lean 4) for all documents, malformed included, all language lists and all generated texts: without outcomes the document is returned byte for byte (C10_no_outcomes_untouched); update never panics and fails only for a missing or unrenderable outcome (C10_fails_only_for_outcomes); the updated text arises from the lines of the document by the rules of the relation Rewritten: every line outside scrut blocks (prose, front-matter, foreign blocks, unterminated constructs, everything after the last test) is written back as it is, in order, LF-terminated, nothing dropped or truncated, every scrut block replaced by exactly one closed block (C10_outside_preserved; strict form under the guard 'every front-matter is closed': C10_outside_preserved_partial); a rewritten block keeps language, inline configuration (white space after `{` dropped, white space only = none) and the comment lines, a block without code keeps all lines and uses no outcome (C10_blocks_kept); a block rewritten from its own code lines is reproduced line for line (C10_passing_verbatim); a second update that reads back the same texts and gets the same generated texts writes the same document (C10_idempotent_partial). PARTIAL: deviations proved on closed witnesses and reported by the oracle (open findings): an unterminated front-matter gains `---` (C10_front_matter_unterminated_fails_on_witness), `\\r\\r\\n` loses one CR per update (C10_not_idempotent_stray_cr_witness); two steps of the re-tokenization of the updated document are proved (C10_lines_read_back, C10_fence_line_read_back), running the tokenizer over the rewritten segments and 'same commands' are decided by oracles only. Tie to code: exhaustive documents up to 4 lines over a 12-line branch alphabet x outcome lists, random malformed documents with all line-ending styles, generated well-formed documents with real parse/validate; the model reproduces the whole updated document byte for byte.",
         "design_ref": "DESIGN.md §6 C10",
-        "note": "Trusted: Lean kernel + 3 standard axioms, the correspondence harness, statement reading. generate_testcase is a parameter (C09). Open finding C10:not-idempotent-retained-quantified-expectations (same root cause as C09:update-retained-quantified-expectations). Line terminators are normalised to LF and a final terminator is added (stated normalisation). Repaired earlier by fix: 41f3a85, 7028fbe, 9832a4c.",
+        "note": "Trusted: Lean kernel + 3 standard axioms, the correspondence harness, statement reading. generate_testcase is a parameter (C09). Open finding C10:not-idempotent-retained-quantified-expectations (same root cause as C09:update-retained-quantified-expectations). Line terminators are normalised to LF and a final terminator is added (stated normalisation). Repaired by fix: 41f3a85, 7028fbe, 9832a4c and cdbfbca (empty front-matter gained a blank line; `{  }` became `{}` and then disappeared - found by this check, regression examples C10_front_matter_empty_kept, C10_blank_config_idempotent).",
         "technique": "Lean 4 theorems on an executable model of generate_update over the C06 tokenizer model + differential correspondence (exhaustive small scope, random malformed, generated well-formed) + direct oracles",
     },
     "C08": {
@@ -391,7 +421,7 @@ MANIFEST_TEXT = {
 }
 
 # properties whose machinery is merged but being brought up to date with fix commits: not claimed yet
-PENDING = {"C10"}
+PENDING = set()
 
 WIP = "not yet claimed: model, theorems and correspondence for this property are still being built (see DESIGN.md §11); nothing is asserted about it"
 NOT_APPLICABLE = [{"property_id": "C%02d" % i, "reason": WIP} for i in range(1, 21) if "C%02d" % i not in PROPS or "C%02d" % i in PENDING]
